@@ -385,15 +385,17 @@ PROPS["C07"] = {
              "ever paid by a failing run), then until the verif-tagged spool backlog accessor reports 0. Oracle: distinct lines never received "
              "<= slow_conn + slow_spool deltas; every received line was handed and is intact (an unterminated fragment only at the very end of a "
              "connection and only a prefix of a handed line); duplicates allowed; backlog drained; Shutdown returns. outage_under_load: a steady "
-             "paced stream of 1500-6000 lines with the endpoint killed at 1/3 and back at 2/3, same oracle. Non-trivial: a line handed while down "
+             "paced stream of 1500-6000 lines with the endpoint killed at a drawn point (10-45 %, reset or orderly close) and back at 55-90 %; "
+             "iobuf from 8 bytes (smaller than a line: a dying connection fails inside Write) to 64 KB (fails in a flush), connbuf, flush 1-50 ms, "
+             "reconn 10-100 ms, pacing, line length 30-230 bytes; same oracle (every case counts as non-trivial). Non-trivial: a line handed while down "
              "was received later (went through the spool) AND a line was seen by two connections (replayed from the redo buffer). Distinct = "
              "hash(schedule, tuning)."),
     "level_text": "Generated outage schedules against a real destination with a real disk spool over loopback TCP, exact loss-vs-counted-drops oracle; outage detection timing is the kernel's and scheduler's, so interleavings are sampled.",
     "level_note": "The harness cannot place an outage between two chosen instructions; outage_under_load raises the hit rate of the window around detection (it exposed the getRedo race, now fixed). Drain deadlines are liveness checks (60 s vs <1 s normal).",
     "technique": "property-based testing (rapid) with endpoint fault schedules: set-inclusion + accounting oracle over all connection incarnations",
     "assumptions": ["loopback TCP", "SO_REUSEADDR lets the endpoint come back on the same port"],
-    "quick": [R("TestPropSpoolOutage", 30), P("TestOutageUnderLoad", timeout=900)],
-    "thorough": [R("TestPropSpoolOutage", 90, shards=10, timeout=3000), P("TestOutageUnderLoad", timeout=3000, shards=6)],
+    "quick": [R("TestPropSpoolOutage", 30), R("TestPropOutageUnderLoad", 25, timeout=900)],
+    "thorough": [R("TestPropSpoolOutage", 90, shards=10, timeout=3000), R("TestPropOutageUnderLoad", 120, shards=6, timeout=3000)],
 }
 
 PROPS["C17"] = {
@@ -430,7 +432,9 @@ PROPS["C14"] = {
              "per second): 1-5 of addBlack / addRewriter / addAgg / addRoute / modRoute / modDest whose filter and pattern values come from a "
              "valid-regex grammar, from a grammar-free soup of regex metacharacters (optional ^, literal tokens, then {, {1, (?, [^, \\Q, ... -- "
              "may or may not compile) and plain fragments, followed by dispatches that evaluate the accepted filters; every command and dispatch "
-             "must return (a panic is the crash). pickle_bytes / plain_bytes (in-process, panics "
+             "must return (a panic is the crash). datagram_amqp_bytes: structured, random and boundary-length (4095..9000 B) byte streams as "
+             "UDP datagrams through the listener's datagram handler and as AMQP message bodies through the real consumer loop, into a real "
+             "table. pickle_bytes / plain_bytes (in-process, panics "
              "recovered): mutated CPython pickles (byte flips, truncation, hostile opcodes and lengths, random payloads, wrong frame lengths) and "
              "random / structured byte streams through input.NewPickle / input.NewPlain -> Table.Dispatch. Non-trivial: >=3 steps of a life were "
              "accepted (the configuration took effect and then carried traffic); byte-level: non-empty stream. Distinct = hash(steps / bytes)."),
@@ -438,7 +442,7 @@ PROPS["C14"] = {
     "level_note": "kafkaMdm / pubsub / cloudWatch commands are generated only in forms that fail before their constructors need a broker (those call log.Fatalf when the service is unreachable, always the case offline). Buffer SIZES are kept within what a machine can allocate (an absurd size is memory exhaustion on request, not a crash class). A hung worker is restarted, not reported (liveness belongs to C06/C17).",
     "technique": "property-based testing (rapid) with a crash oracle on a child process (grammar + mutation generators); native go fuzzing of the pickle handler in the thorough tier",
     "assumptions": ["a panic in any goroutine terminates the relay exactly as it terminates the child", "og-rek is part of the relay's attack surface"],
-    "quick": [R("TestPropAdminAndTraffic", 90, timeout=900), R("TestPropFilterValues", 20000), R("TestPropPickleBytes", 3000), R("TestPropPlainBytes", 3000)],
-    "thorough": [R("TestPropAdminAndTraffic", 500, shards=12, timeout=3000), R("TestPropFilterValues", 400000, shards=4, timeout=3000), R("TestPropPickleBytes", 30000, shards=2, timeout=3000), R("TestPropPlainBytes", 100000, shards=2, timeout=3000),
+    "quick": [R("TestPropAdminAndTraffic", 90, timeout=900), R("TestPropFilterValues", 20000), R("TestPropPickleBytes", 3000), R("TestPropPlainBytes", 3000), R("TestPropDatagramAndAMQPBytes", 5000)],
+    "thorough": [R("TestPropAdminAndTraffic", 500, shards=12, timeout=3000), R("TestPropFilterValues", 400000, shards=4, timeout=3000), R("TestPropPickleBytes", 30000, shards=2, timeout=3000), R("TestPropPlainBytes", 100000, shards=2, timeout=3000), R("TestPropDatagramAndAMQPBytes", 100000, shards=2, timeout=3000),
                  F("FuzzPickleHandle", "180s", timeout=1200)],
 }
